@@ -8,6 +8,7 @@ import (
 	"math/big"
 	"math/rand"
 	"os"
+	"regexp"
 	"strconv"
 	"strings"
 	"testing"
@@ -125,6 +126,18 @@ func checkRow(r *FillRow, variant int, rev bool) string {
 			}
 		}
 	}
+	// Meta functions only decorate: with every component wrapped in its own colour the same cells are drawn, and each
+	// coloured section holds nothing but its own component
+	col := func(c int) func(string) string {
+		return func(s string) string { return fmt.Sprintf("\x1b[3%dm%s\x1b[0m", c, s) }
+	}
+	cres := callFill(bsWith(bs, col).Build(), st)
+	if cres.hung {
+		return "does-not-terminate (with Meta functions)"
+	}
+	if plain := ansiRE.ReplaceAllString(cres.out, ""); cres.err != nil || plain != res.out {
+		return fmt.Sprintf("with Meta functions that add only colour the filler draws %q, without them %q", cres.out, res.out)
+	}
 	if w := runewidth.StringWidth(res.out); w != r.Out {
 		return fmt.Sprintf("width %d, specification %d (%q)", w, r.Out, res.out)
 	}
@@ -153,6 +166,12 @@ func checkRow(r *FillRow, variant int, rev bool) string {
 	return ""
 }
 
+var ansiRE = regexp.MustCompile("\x1b\\[[0-9;]*m")
+
+func bsWith(bs mpb.BarStyleComposer, col func(int) func(string) string) mpb.BarStyleComposer {
+	return bs.LboundMeta(col(1)).RboundMeta(col(2)).FillerMeta(col(3)).RefillerMeta(col(4)).PaddingMeta(col(5)).TipMeta(col(6))
+}
+
 // the spinner filler with a frame as wide as the row's tip, in its three positions
 func checkSpinner(r *FillRow) string {
 	frame := palette["tip"][0][r.P.Tw]
@@ -167,6 +186,14 @@ func checkSpinner(r *FillRow) string {
 		}
 		if w := runewidth.StringWidth(res.out); w != r.Spin {
 			return fmt.Sprintf("spinner width %d, specification %d (%q)", w, r.Spin, res.out)
+		}
+		// a Meta function that only adds colour leaves the cells as they are
+		cres := callFill(ss.Meta(func(s string) string { return "\x1b[31;1m" + s + "\x1b[0m" }).Build(), st)
+		if cres.hung {
+			return "spinner does-not-terminate (with a Meta function)"
+		}
+		if plain := ansiRE.ReplaceAllString(cres.out, ""); plain != res.out {
+			return fmt.Sprintf("spinner with a Meta function that adds only colour draws %q, without it %q", cres.out, res.out)
 		}
 	}
 	// frames of different widths, drawn one after the other by the same filler
